@@ -558,7 +558,43 @@ func (m *Model) checkBlockStmt(s *Sink, rule string) {
 			_ = c
 			rec = true
 		}
-		if rec {
+		// no direct recursion to be seen (a callback handed to a library function, ...): decided by evaluating the two
+		// predicates the loops use on markers nested two blocks deep
+		decidedByCases := false
+		if !rec && mkObj("Break") != nil && mkObj("Continue") != nil && mkObj("HTML") != nil && mkObj("Block") != nil {
+			allOK, n := true, 0
+			for _, pr := range []struct{ fn, marker, other string }{{"hasBreakStmt", "Break", "Continue"}, {"hasContinueStmt", "Continue", "Break"}} {
+				pf := m.PkgFunc("evaluator", pr.fn)
+				if pf == nil || len(pf.Params) != 1 {
+					allOK = false
+					continue
+				}
+				for _, tc := range []struct {
+					obj  any
+					want bool
+				}{
+					{mkObj(pr.marker), true},
+					{mkObj(pr.other), false},
+					{mkBlock(mkObj("HTML"), mkObj(pr.marker)), true},
+					{mkBlock(mkObj("HTML"), mkBlock(mkObj("HTML"), mkObj(pr.marker))), true},
+					{mkBlock(mkBlock(mkBlock(mkObj(pr.marker))), mkObj("HTML")), true},
+					{mkBlock(mkObj("HTML"), mkBlock(mkObj("HTML"), mkObj(pr.other))), false},
+					{mkBlock(mkObj("HTML"), mkBlock(mkObj("HTML"))), false},
+				} {
+					ip := &Interp{m: m}
+					res, known := ip.Run(pf, []any{tc.obj})
+					rc, isC := res.(constant.Value)
+					n++
+					if !known || !isC || rc.Kind() != constant.Bool || ip.stuck != "" || constant.BoolVal(rc) != tc.want {
+						allOK = false
+					}
+				}
+			}
+			decidedByCases = allOK && n == 14
+		}
+		if decidedByCases {
+			s.OK(rule, fnKey(hc)+"|looks inside nested blocks", m.Pos(hc.Pos()), "case evaluation of hasBreakStmt / hasContinueStmt on a marker, on the other marker, and on markers nested one, two and three blocks deep")
+		} else if rec {
 			s.OK(rule, fnKey(hc)+"|looks inside nested blocks", m.Pos(hc.Pos()), "recurses through the elements of nested Block objects: control directives under nested @if reach the loop")
 		} else {
 			s.Violation(rule, fnKey(hc)+"|looks inside nested blocks", m.Pos(hc.Pos()), "hasControlStmt does not recurse into nested blocks: @break under a nested @if would be ignored")
@@ -732,6 +768,12 @@ func (m *Model) RunScope(s *Sink, rule string) {
 					target = x.Map
 				case *ssa.Store:
 					if fa, ok := x.Addr.(*ssa.FieldAddr); ok && strings.HasSuffix(derefTypeString(fa.X.Type()), "object.Env") && fieldName(fa.X.Type(), fa.Field) == "store" {
+						// the store of an environment allocated right here (a composite literal) given a map made right here
+						_, freshEnv := fa.X.(*ssa.Alloc)
+						_, freshMap := x.Val.(*ssa.MakeMap)
+						if freshEnv && freshMap {
+							continue
+						}
 						if !allowed[canonFnName(fn)] {
 							nw++
 							s.Violation(rule, fnKey(fn)+"|replaces an Env store", m.InstrPos(in), "%s replaces the variable store of an environment", fnKey(fn))
